@@ -115,12 +115,9 @@ def flevel_float(v: float) -> bool:
 
 
 def share_range_ff(a: float, b: float) -> bool:
-  """Equal endpoints: documentation silent (don't-care).
-
+  """
   post: _
   """
-  if a == b:
-    return True
   return accepts(treatment_share_range=(a, b)) == (0.0 < a < b < 1.0)
 
 
@@ -128,8 +125,6 @@ def budget_range_ff(a: float, b: float) -> bool:
   """
   post: _
   """
-  if a == b:
-    return True
   return accepts(budget_range=(a, b)) == (0.0 <= a < b < math.inf)
 
 
